@@ -4,6 +4,11 @@ import codec
 TRUSTED_BASE = ['model of buf2radmsg in coq/Model/Packet.v; MD5 oracle (Coq) / OCaml Digest (driver); HMAC-MD5 defined in Gallina per RFC 2104']
 ASSUMPTIONS = ['md5 output has 16 bytes', 'packets handed to the parser have at least 20 bytes (guaranteed by every transport)']
 RULE = 'parse of valid and mutated request packets over all codes, Message-Authenticator placements/counts/lengths, truncated/padded/off-by-one length fields; distinct = distinct implementation observation lines'
-def generate(rng, tier):
+def generate_core(rng, tier):
     n = 60000 if tier == 'thorough' else 2500
     return batch(codec.parse_ops(rng, n), 'parse', 100)
+
+def generate(rng, tier):
+    """the component-level cases, then the clause seen through the whole request/reply pipeline"""
+    import pipeline, focus
+    return generate_core(rng, tier) + focus.ma_policy_cases(rng, 200 if tier == 'thorough' else 16) + pipeline.cases(rng, 300 if tier == 'thorough' else 20, nops=10)
